@@ -41,7 +41,12 @@ impl Distance for Manhattan {
     }
 
     fn normalized_distance(d: f32, _dimension: usize) -> f32 {
-        d.max(0.0)
+        // `f32::max` ignores a NaN: an undefined distance must not be reported as zero
+        if d.is_nan() {
+            d
+        } else {
+            d.max(0.0)
+        }
     }
 
     fn norm_no_header(v: &UnalignedVector<Self::VectorCodec>) -> f32 {
